@@ -29,7 +29,8 @@ func (t *TransactionCancelTimer) Start() error {
 	if t.done != nil {
 		return fmt.Errorf("TransactionCancelTimer already started")
 	}
-	t.done = make(chan struct{})
+	done := make(chan struct{})
+	t.done = done
 
 	go func() {
 		timer := time.NewTimer(t.delay)
@@ -43,10 +44,9 @@ func (t *TransactionCancelTimer) Start() error {
 			if t.fnc != nil {
 				t.fnc()
 			}
-		case <-t.done:
+		case <-done:
 			// Stop the timer
 			log.Infof("TransactionCancelTimer stopped")
-			t.done = nil
 		}
 	}()
 
@@ -59,6 +59,13 @@ func (t *TransactionCancelTimer) Stop() {
 
 	if t.done == nil {
 		return
+	}
+	select {
+	case <-t.done:
+		// already stopped, Stop can be called several times
+		// (by confirm or cancel and by the expired timer itself)
+		return
+	default:
 	}
 	close(t.done)
 }
